@@ -148,19 +148,22 @@ CHECKS = {
     },
     "C06": {
         "bins": True,
-        "engines": _e1([("auth", 150), ("mixed", 50)], [("auth", 3000), ("mixed", 1500)]),
+        "engines": _e1([("auth", 150), ("mixed", 50), ("expiry", 40)], [("auth", 3000), ("mixed", 1500), ("expiry", 1000)]),
         "level": "exploration",
         "rule": E1_RULE + E3_RULE + "C06 oracle: a request succeeds iff (by construction) its signature is a correct one by a registered, unexpired user over exactly the "
                 "request's message (mutations: other message, truncated, one character changed, non-zbase32, empty, unregistered key, and a correct signature the same signer produced for an earlier, different request replayed here); every failure is an "
-                "authentication error and leaves the database byte-identical; after every request all records of every other user are unchanged; "
+                "authentication error and leaves the database byte-identical (likewise the subscription error a registered user gets after the expiry height, inside the grace period); after every request all records of every other user are unchanged; "
                 "get_subscription_info lists only the signer's locators. non-trivial = history with >= 1 rejected signature.",
         "assumptions": E1_ASSUME,
     },
     "C08": {
         "bins": True,
-        "engines": _e1([("mixed", 150), ("expiry", 40)], [("mixed", 3000), ("expiry", 1000), ("chain", 500)]),
+        "engines": _e1([("mixed", 150), ("expiry", 40)], [("mixed", 3000), ("expiry", 1000), ("chain", 500)],
+                       lambda tier: [{"engine": "e1o", "shards": 16, "args": {"cases": 10 if tier == "thorough" else 2, "max_faults": 40}}]),
         "level": "exploration",
-        "rule": E1_RULE + E3_RULE + "C08 oracle: every successful register/add reply is verified with the client-side verifier (RegistrationReceipt::verify, "
+        "rule": E1_RULE + E3_RULE + "Plus (engine e1o, stalled reorgs only): after five of each history's polls the node reorganises 1 / 2 / 7 / 8 / 12 blocks away and the first block of the new "
+                "branch cannot be downloaded, so the poll disconnects and stops at the fork point (the SPV client keeps that progress and the tower goes on serving requests there); a user "
+                "registers and submits a fresh appointment: the receipt's start_block must be the fork point's height. C08 oracle: every successful register/add reply is verified with the client-side verifier (RegistrationReceipt::verify, "
                 "AppointmentReceipt::verify) under the tower id, rebuilt from exactly the returned fields; start_block == model height (also after "
                 "disconnections); slots/expiry equal the users row; stored row and get_appointment read-back equal the last accepted version byte for byte. "
                 "non-trivial = history with >= 1 receipt verified.",
